@@ -358,6 +358,90 @@ class Tx:
     return t
 
 
+def tr_ranges(tree):
+  """RangesFunction.__call__ / deriv over abstract operand functions: `x[range(*_range)]` is the slice of the range, `self.functions[k]`
+  the k-th operand, the comprehension runs over enumerate(self.ranges); deriv concatenates with reduce(lambda a, b: list(a) + list(b), ., [])."""
+  def un(e):
+    return ast.unparse(e)
+  try:
+    node = next(c for c in tree.body if isinstance(c, ast.ClassDef) and c.name == 'RangesFunction')
+  except StopIteration:
+    raise Unsupported('?:Module:class RangesFunction not found')
+  meths = {n.name: n for n in node.body if isinstance(n, ast.FunctionDef)}
+  init = meths.get('__init__') or U(node, 'constructor')
+  got = {un(s.targets[0]): un(s.value) for s in init.body if isinstance(s, ast.Assign) and len(s.targets) == 1}
+  if got.get('self.ranges') != '[f[0] for f in range_functions]' or got.get('self.functions') != '[f[1] for f in range_functions]' or got.get('self._len') != 'self.ranges[-1][1]':
+    U(init, 'constructor stores %s' % got)
+  ln = meths.get('__len__')
+  if ln is None or un(ln.body[-1]) != 'return self._len':
+    U(node, '__len__')
+
+  def comp(e, attr):
+    """[self.functions[k]<.attr>(x[range(*_range)]) for k, _range in enumerate(self.ranges)]"""
+    if not (isinstance(e, ast.ListComp) and len(e.generators) == 1 and not e.generators[0].ifs):
+      U(e, 'comprehension')
+    g = e.generators[0]
+    if not (isinstance(g.target, ast.Tuple) and len(g.target.elts) == 2 and all(isinstance(z, ast.Name) for z in g.target.elts) and un(g.iter) == 'enumerate(self.ranges)'):
+      U(g, 'generator')
+    k, r = (z.id for z in g.target.elts)
+    c = e.elt
+    if not (isinstance(c, ast.Call) and len(c.args) == 1 and not c.keywords):
+      U(c, 'element')
+    f = c.func
+    if attr:
+      if not (isinstance(f, ast.Attribute) and f.attr == attr):
+        U(c, 'operand method')
+      f = f.value
+    # the operand: self.functions[<index expression in k>]
+    if not (isinstance(f, ast.Subscript) and un(f.value) == 'self.functions'):
+      U(c, 'operand')
+    def nexpr(z):
+      if isinstance(z, ast.Name) and z.id == k:
+        return k
+      if isinstance(z, ast.Constant) and isinstance(z.value, int) and not isinstance(z.value, bool) and z.value >= 0:
+        return '%d%%nat' % z.value
+      if isinstance(z, ast.BinOp) and isinstance(z.op, ast.Add):
+        return '(%s + %s)%%nat' % (nexpr(z.left), nexpr(z.right))
+      U(z, 'index expression')
+    idx = nexpr(f.slice)
+    # the argument: x[range(*_range)]  /  x[range(_range[0], _range[1])]
+    a = c.args[0]
+    if not (isinstance(a, ast.Subscript) and un(a.value) == 'x' and isinstance(a.slice, ast.Call) and un(a.slice.func) == 'range'):
+      U(a, 'argument')
+    ra = a.slice.args
+    if len(ra) == 1 and isinstance(ra[0], ast.Starred) and un(ra[0].value) == r:
+      lo, hi = '(fst %s)' % r, '(snd %s)' % r
+    elif len(ra) == 2 and all(isinstance(z, ast.Subscript) and un(z.value) == r and isinstance(z.slice, ast.Constant) and z.slice.value in (0, 1) for z in ra):
+      lo, hi = ('(%s %s)' % ('fst' if z.slice.value == 0 else 'snd', r) for z in ra)
+    else:
+      U(a, 'range')
+    meth = {'': 'f_call', 'deriv': 'f_deriv'}[attr]
+    return '(map (fun kr => let %s := fst kr in let %s := snd kr in %s (nth %s functions null_fobj) (slice %s %s x)) (enum_ranges ranges))' % (k, r, meth, idx, lo, hi)
+
+  def body_of(name):
+    m = meths.get(name) or U(node, 'method %s' % name)
+    if [a.arg for a in m.args.args] != ['self', 'x']:
+      U(m, 'parameters')
+    b = [s for s in m.body if not (isinstance(s, ast.Expr) and isinstance(s.value, ast.Constant))]
+    if not b or un(b[0]) != 'x = x.reshape((len(self),))':
+      U(m, 'reshape of the argument')
+    return b[1:]
+  out = {}
+  b = body_of('__call__')
+  if not (len(b) == 1 and isinstance(b[0], ast.Return) and isinstance(b[0].value, ast.Call) and isinstance(b[0].value.func, ast.Attribute) and b[0].value.func.attr == 'sum' and
+          not b[0].value.args and not b[0].value.keywords and isinstance(b[0].value.func.value, ast.Call) and un(b[0].value.func.value.func) == 'np.array' and len(b[0].value.func.value.args) == 1):
+    U(meths['__call__'], '__call__ body')
+  out['call'] = '(vsum %s)' % comp(b[0].value.func.value.args[0], '')
+  b = body_of('deriv')
+  if not (len(b) == 2 and isinstance(b[0], ast.Assign) and isinstance(b[0].targets[0], ast.Name) and isinstance(b[1], ast.Return)):
+    U(meths['deriv'], 'deriv body')
+  v = b[0].targets[0].id
+  if un(b[1].value) != 'np.array(reduce(lambda a, b: list(a) + list(b), %s, []))' % v:
+    U(b[1], 'concatenation')
+  out['deriv'] = '(let %s := %s in fold_left (fun a b => a ++ b) %s [])' % (v, comp(b[0].value, 'deriv'), v)
+  return out
+
+
 def gen_functions(repo):
   fname = os.path.join(repo, 'device_kit', 'functions.py')
   out = ['(* GENERATED by translator/functions_tx.py from device_kit/functions.py -- do not edit. *)',
@@ -388,6 +472,26 @@ def gen_functions(repo):
       out.append('(* functions.py: %s.%s NOT TRANSLATED (%s): alias of the hand-written model, tie falls back to the correspondence *)' % (
           cls, m, str(e).replace('*)', '* )')))
     out.append(head + '\n  ' + body + '.\n')
+  # RangesFunction (call and deriv; its block-diagonal hess stays hand-modelled)
+  RF = {'call': ('A', 'vsum (map (fun r => f_call (snd r) (slice (fst (fst r)) (snd (fst r)) x)) (combine ranges functions))'),
+        'deriv': ('list A', 'flat_map (fun r => f_deriv (snd r) (slice (fst (fst r)) (snd (fst r)) x)) (combine ranges functions)')}
+  try:
+    if tree is None:
+      raise Unsupported('?:Module:cannot parse functions.py')
+    rf = tr_ranges(tree)
+    err = None
+  except Unsupported as e:
+    rf, err = {}, str(e).replace('*)', '* )')
+  for mn in ('call', 'deriv'):
+    if mn in rf:
+      translated.append('RangesFunction_%s' % mn)
+      out.append('(* functions.py: RangesFunction.%s *)' % {'call': '__call__'}.get(mn, mn))
+      body = rf[mn]
+    else:
+      untranslated.append('RangesFunction_%s' % mn)
+      out.append('(* functions.py: RangesFunction.%s NOT TRANSLATED (%s): alias of the hand-written model, tie falls back to the correspondence *)' % ({'call': '__call__'}.get(mn, mn), err))
+      body = RF[mn][1]
+    out.append('Definition RangesFunction_%s (ranges : list (nat * nat)) (functions : list (fobj A)) (x : list A) : %s :=\n  %s.\n' % (mn, RF[mn][0], body))
   out.append('End GenFunctions.')
   out.append('From Coq Require Import String.')
   out.append('Definition functions_translated : list String.string := [%s]%%string.' % '; '.join('"%s"' % x for x in translated))
